@@ -1,0 +1,8 @@
+//go:build verif
+
+package vgirpc
+
+// VerifDispatchHook returns the dispatch hook currently installed on s (nil
+// when none). Read-only view for the C37 / C43 monitors, which wrap a hook
+// installed by third-party code (vgiotel.InstrumentServer) in a recorder.
+func VerifDispatchHook(s *Server) DispatchHook { return s.dispatchHook }
